@@ -78,7 +78,7 @@ func checkC14(run *Run, res *Result) {
 			}
 			// a failed save re-marks everything it had dumped: every vBucket of that save episode (its write
 			// requests reach the node at one fake instant) may legitimately be written again
-			if e.M > 0 && isCkptKey(e.Key) && e.S != "CMD_SUBDOCMULTILOOKUP" && e.S2 != "ok" && e.S2 != "0x01" && e.S2 != "0x86" && e.S2 != "0x85" {
+			if e.M > 0 && isCkptKey(e.Key) && e.S != "CMD_SUBDOCMULTILOOKUP" && e.S2 != "ok" && e.S2 != "0x01" { // (also TMPFAIL / EBUSY: gocbcore retries them, but the save may run into its timeout meanwhile and fail as a whole)
 				for vb := range epVbs[e.M] {
 					k := mk{e.M, vb}
 					lastJust[k], lastJustWhat[k] = e.N, "failed-save"
